@@ -22,6 +22,7 @@ from sa.terms import T
 from sa.pyfront import Program
 
 RULES = {
+    "R-C16-h": "the diagnostics that tasks update without synchronisation (tracing counters, intersection_data_points) are never read for a decision: no raise / return of calculate is conditional on them",
     "R-C16-g": "the result does not depend on which thread runs a task: no attribute of a threading.local() is read on the evaluation path unless the same function assigns it (a value set at import time or by the calling thread does not exist in a pool worker)",
     "R-C16-f": "the compiled kernels called from the tasks write only buffers allocated inside the same call (no module-level / `global` workspace shared by the pool threads, whose merge loops run without the GIL)",
     "R-C16-a": "every write inside a pool task is task-local, reached through region[tuple(flattened_slice)] with a task-argument-only index, or a named diagnostic",
@@ -238,6 +239,39 @@ def analyse_one(prog, module, clsname, rep):
                    "%d local, %d partitioned by tuple(flattened_slice), %d whole-region under `not flattened_slice`, %d named diagnostics" % (n_local, n_part, n_whole, n_diag))
     rep.floors["R-C16-a"] = (20, rep.floors.get("R-C16-a", (0, 0))[1] + total)
 
+    # ---------------- R-C16-h: the named diagnostics (tracing counters, intersection_data_points) are updated without
+    # synchronisation by design - harmless only while nothing DECIDES on them
+    diag_allocs = set()
+    for ev0 in I.events:
+        if ev0.kind == "store_attr" and ev0["attr"] in tasks.DIAG_ATTRS:
+            diag_allocs.update(x for x in tm.walk(ev0["value"]) if x.op == "alloc")
+
+    def reads_diag(t, depth=0):
+        """does t read a diagnostic attribute - directly, or through the iterable of a comprehension / loop it contains"""
+        if depth > 6:
+            return False
+        for x in tm.walk(t):
+            if (x.op == "attr" and x.args[1] in tasks.DIAG_ATTRS) or (x.op == "alloc" and x in diag_allocs):
+                return True
+            lids = []
+            if x.op == "comp":
+                lids = list(x.args[2])
+            elif x.op in ("iter", "dkey", "dval", "enumidx") and len(x.args) > 1:
+                lids = [x.args[1]]
+            for lid in lids:
+                it = I.loopinfo.get(lid, {}).get("iter") if isinstance(lid, str) else None
+                if it is not None and reads_diag(it, depth + 1):
+                    return True
+        return False
+    dec = [ev for ev in I.events if ev.kind in ("raise", "return") and not ev.stack and any(reads_diag(c) for c, pol in ev.guards)]
+    if dec:
+        ev = dec[0]
+        rep.violated("R-C16-h", "%s@%d" % (where, ev.line), "no decision of calculate depends on a diagnostic counter",
+                     "a %s in calculate is conditional on %s: the pool tasks update that counter with an unsynchronised read-modify-write (`+= 1`), an update is lost when two workers interleave inside it, and the decision differs from the serial run"
+                     % (ev.kind, [tm.show(c)[:50] for c, pol in ev.guards if reads_diag(c)][0]),
+                     witness={"schedule": "two workers: one is pre-empted between reading and writing back the counter while the other completes a fill"})
+    else:
+        rep.proved("R-C16-h", where, "no decision of calculate depends on a diagnostic counter", "no raise / return guarded by %s" % sorted(tasks.DIAG_ATTRS)[:4])
     # ---------------- reduce after the barrier (R-C16-e)
     reduces = [ev for ev in I.events if ev.kind == "call" and ev["method"] == "reduce" and ev["recv"] is not None and ev["resolved"]]
     last_dispatch = max([ev.seq for ev in disp] + [ev.seq for ev in info.serial_calls])
